@@ -284,7 +284,7 @@ var (
 	Alpha             = regexp.MustCompile(`^[a-z]+$`)
 	Blur              = regexp.MustCompile(`^blur\([0-9]+px\)$`)
 	BrightnessCont    = regexp.MustCompile(`^(brightness|contrast)\([0-9]+\%\)$`)
-	Count             = regexp.MustCompile(`^[0-9]+[\.]?[0-9]*$`)
+	Count             = regexp.MustCompile(`^(?:[0-9]+|[0-9]*\.[0-9]+)$`)
 	CubicBezier       = regexp.MustCompile(`^cubic-bezier\(([ ]*(0(\.[0-9]+)?|1(\.0)?),){3}[ ]*(0(\.[0-9]+)?|1)\)$`)
 	Digits            = regexp.MustCompile(`^digits [2-4]$`)
 	DropShadow        = regexp.MustCompile(`^drop-shadow\(([-]?[0-9]+px) ([-]?[0-9]+px)( [-]?[0-9]+px)?( ([-]?[0-9]+px))?`)
@@ -299,9 +299,9 @@ var (
 	Length            = regexp.MustCompile(`^[\-]?([0-9]+|[0-9]*[\.][0-9]+)(%|cm|mm|in|px|pt|pc|em|ex|ch|rem|vw|vh|vmin|vmax|deg|rad|turn)?$`)
 	Matrix            = regexp.MustCompile(`^matrix\(([ ]*[0-9]+[\.]?[0-9]*,){5}([ ]*[0-9]+[\.]?[0-9]*)\)$`)
 	Matrix3D          = regexp.MustCompile(`^matrix3d\(([ ]*[0-9]+[\.]?[0-9]*,){15}([ ]*[0-9]+[\.]?[0-9]*)\)$`)
-	NegTime           = regexp.MustCompile(`^[\-]?[0-9]+[\.]?[0-9]*(s|ms)?$`)
+	NegTime           = regexp.MustCompile(`^[\-]?(?:[0-9]+|[0-9]*\.[0-9]+)(s|ms)?$`)
 	Numeric           = regexp.MustCompile(`^[0-9]+$`)
-	NumericDecimal    = regexp.MustCompile(`^[0-9\.]+$`)
+	NumericDecimal    = regexp.MustCompile(`^(?:[0-9]+|[0-9]*\.[0-9]+)$`)
 	Opactiy           = regexp.MustCompile(`^opacity\(([0-9]{1,2}|100)%\)$`)
 	Perspective       = regexp.MustCompile(`perspective\(`)
 	Position          = regexp.MustCompile(`^[\-]*[0-9]+[cm|mm|in|px|pt|pc\%]* [[\-]*[0-9]+[cm|mm|in|px|pt|pc\%]*]*$`)
@@ -318,7 +318,7 @@ var (
 	Skew              = regexp.MustCompile(`skew(x|y)?\(`)
 	Span              = regexp.MustCompile(`^span [0-9]+$`)
 	Steps             = regexp.MustCompile(`^steps\([ ]*[0-9]+([ ]*,[ ]*(start|end)?)\)$`)
-	Time              = regexp.MustCompile(`^[0-9]+[\.]?[0-9]*(s|ms)?$`)
+	Time              = regexp.MustCompile(`^(?:[0-9]+|[0-9]*\.[0-9]+)(s|ms)?$`)
 	TransitionProp    = regexp.MustCompile(`^([a-zA-Z]+,[ ]?)*[a-zA-Z]+$`)
 	TranslateScale    = regexp.MustCompile(`(translate|translate3d|translatex|translatey|translatez|scale|scale3d|scalex|scaley|scalez)\(`)
 	URL               = regexp.MustCompile(`^url\([\"\']?((https|http)://[a-z0-9\./_:]+[\"\']?)\)$`)
